@@ -2,6 +2,7 @@ package rules
 
 import (
 	"fmt"
+	"go/token"
 	"go/types"
 	"strings"
 
@@ -43,6 +44,7 @@ func C12(ctx *core.Ctx, r *core.Report) {
 	c12EndEditUnconditional(ctx, r)
 	errorTestedBeforeNextCall(ctx, r)
 	postConstraintsAlwaysRun(ctx, r)
+	c12ClearStopsAtFirstFailure(ctx, r)
 }
 
 // c12Pairing: end follows begin on all exits.
@@ -454,6 +456,109 @@ func c12WrapVerb(ctx *core.Ctx, r *core.Report) {
 		}
 	}
 	r.Floor("wrap-with-w", n, 8)
+	// the same for every other place in package node where an error that may come from a
+	// node callback is put into a new error (constraint checks evaluate expressions on nodes)
+	seen := map[*ssa.Function]bool{}
+	for _, spec := range editPathFuncs {
+		if f := ctx.Lookup(spec); f != nil {
+			for _, g := range withClosures(f) {
+				seen[g] = true
+			}
+		}
+	}
+	m := 0
+	for _, g := range scopeFuncs(ctx, "node") {
+		if seen[g] {
+			continue
+		}
+		for _, ef := range errorfCalls(g) {
+			vs := verbs(ef.Format)
+			// an error that wraps one of the defined error identities (%w on fc.BadRequestError …)
+			// and quotes a parser's message as text is how syntax errors are reported
+			hasW := false
+			for _, v := range vs {
+				if v == "w" {
+					hasW = true
+				}
+			}
+			if hasW {
+				continue
+			}
+			for i, a := range ef.Args {
+				if a == nil || i >= len(vs) {
+					continue
+				}
+				src := core.Strip(a)
+				if !core.IsErrorType(src.Type()) {
+					continue
+				}
+				if _, isGlobalLoad := src.(*ssa.UnOp); isGlobalLoad {
+					if _, isG := src.(*ssa.UnOp).X.(*ssa.Global); isG {
+						continue
+					}
+				}
+				m++
+				r.Ob("wrap-with-w", fmt.Sprintf("%s/Errorf(%q)/arg%d", core.FnName(g), shorten(ef.Format, 40), i), ctx.Pos(ef.Call.Pos()), vs[i] == "w",
+					fmt.Sprintf("an error value is formatted with %%%s instead of %%w: when it came from a node callback the API's error no longer wraps the node's error", vs[i]))
+			}
+		}
+	}
+	r.Count("instances:wrap-with-w(other node functions)", m)
+}
+
+// c12ClearStopsAtFirstFailure: "no write is issued after the failing call" — the
+// loop that clears the members of the case being left (editor.clearChoiceCase)
+// returns at the first member whose clearing fails; it does not remember the
+// error and go on clearing (which would leave the old case partly cleared AND
+// report a failure).
+func c12ClearStopsAtFirstFailure(ctx *core.Ctx, r *core.Report) {
+	f := ctx.Method("node", "editor", "clearChoiceCase")
+	if f == nil {
+		r.Fatalf("anchor node.editor.clearChoiceCase not found")
+		return
+	}
+	n := 0
+	for _, c := range core.CallSites(f) {
+		if _, isDefer := c.(*ssa.Defer); isDefer {
+			continue
+		}
+		res := c.Common().Signature().Results()
+		if res.Len() == 0 || !core.IsErrorType(res.At(res.Len()-1).Type()) || loopBlocks(c.Block()) == nil {
+			continue
+		}
+		ev := errResult(c)
+		if ev == nil {
+			continue
+		}
+		n++
+		// the non-nil side of the test of ev reaches a return without passing the loop header again
+		ok := false
+		for _, ref := range *ev.Referrers() {
+			bo, isBo := ref.(*ssa.BinOp)
+			if !isBo || (!core.IsNilConst(bo.Y) && !core.IsNilConst(bo.X)) {
+				continue
+			}
+			for _, r2 := range *bo.Referrers() {
+				ifi, isIf := r2.(*ssa.If)
+				if !isIf {
+					continue
+				}
+				failSucc := 0
+				if bo.Op == token.EQL {
+					failSucc = 1
+				}
+				fb := ifi.Block().Succs[failSucc]
+				if len(fb.Instrs) > 0 {
+					if _, isRet := fb.Instrs[len(fb.Instrs)-1].(*ssa.Return); isRet {
+						ok = true
+					}
+				}
+			}
+		}
+		r.Ob("errors-surface", fmt.Sprintf("node.editor.clearChoiceCase/%s/stops-at-failure", core.CalleeName(c)), ctx.Pos(c.Pos()), ok,
+			"when clearing one member of the old case fails the loop goes on to clear the others (the error is only remembered): writes are issued after the failing call and the target is left with a partly cleared case")
+	}
+	r.Floor("errors-surface(clearChoiceCase loop)", n, 2)
 }
 
 func shorten(s string, n int) string {
